@@ -726,3 +726,183 @@ Example C10_hash_reader_not_inv :
   (exists d, hdecode_doc rs_u32 (fun _ => 0) (hencode rs_u32 rs_bad) = Some d /\ hd_wf d = true) /\
   ~ hinv (fun _ => 0) rs_bad.
 Proof. exact hd_wf_not_hinv. Qed.
+
+(* ---- trees: the reader's verdicts read backwards (Avl/ReaderSound.v), and
+   the end-to-end statement about the bytes after a history
+   (Avl/EndToEnd.v) ---- *)
+From Stevia Require Avl.Master.
+From Stevia Require Import Avl.ReaderSound Avl.EndToEnd.
+
+(* the vocabulary: slot of the root of the reader's tree; "the record array
+   holds the tree" ([holds ns i l r h k v]: record i has these registers, key
+   and value); live slots and keys in order; sub-tree; "the arguments of the
+   operations fit the key and value fields" *)
+Theorem C10_avl_reader_defs : forall ns lay,
+  dslot DE = 0 /\ (forall l i k v h r, dslot (DT l i k v h r) = i) /\
+  (drep ns DE <-> True) /\
+  (forall l i k v h r, drep ns (DT l i k v h r) <->
+     (exists n, getn ns i = Ok n /\ nl n = dslot l /\ nr n = dslot r /\ nh n = h /\ nk n = k /\ nv n = v) /\
+     drep ns l /\ drep ns r) /\
+  (forall t, dlive t = map (fun x => fst (fst x)) (d_inorder t)) /\
+  (forall t, dkeys t = map (fun x => snd (fst x)) (d_inorder t)) /\
+  (forall o, op_fit lay o <->
+     match o with
+     | OInsert k v | OGetMut k v =>
+       zval_ok (fsigned (kty lay)) (N.to_nat (ksz lay)) k /\
+       zval_ok (fsigned (vty lay)) (N.to_nat (vsz lay)) v
+     | _ => True
+     end) /\
+  (forall ops, ops_fit lay ops <-> Forall (op_fit lay) ops).
+Proof.
+  exact (fun ns lay => conj eq_refl (conj (fun l i k v h r => eq_refl) (conj (iff_refl _)
+    (conj (fun l i k v h r => iff_refl _) (conj (fun t => eq_refl) (conj (fun t => eq_refl)
+    (conj (fun o => iff_refl _) (fun ops => iff_refl _)))))))).
+Qed.
+Print Assumptions C10_avl_reader_defs.
+
+(* Whatever the bytes: if the independent reader answers [Some d] then the
+   buffer decodes to a state s whose header words are the ones reported; the
+   tree reported is held by the record array and hangs off the root word; the
+   recycled slots reported are a chain of height registers from the free-list
+   head; the never-used slots are the records from the (logical) cursor on;
+   and
+   - [d_wf d = true] means: live, recycled and never-used slots are pairwise
+     disjoint, duplicate-free and together exactly 1..number of records, live
+     and recycled together exactly the slots below the cursor; in particular
+     no record is reached twice from the root (no sharing, no cycle) and none
+     is both live and recycled; the size word counts the live slots; cursor
+     <= capacity + 1 and capacity <= number of records; recycled records are
+     cleared but for the chain link, never-used records are all zero;
+   - [d_bst d = true] means the keys in order are strictly increasing;
+   - [d_bal d = true] means at every node the two subtrees differ by at most
+     one level and the stored height is exact. *)
+Theorem C10_avl_reader_sound : forall wbytes lay bs d,
+  decode_doc wbytes lay bs = Some d ->
+  exists s, decode wbytes lay bs = Some s /\
+    d_hdr d = [root s; size s; cap s; flh s; seq s] /\
+    drep (nodes s) (d_tree d) /\ dslot (d_tree d) = root s /\
+    (forall i, In i (dlive (d_tree d)) -> 1 <= i <= N.of_nat (length (nodes s))) /\
+    (exists term, fchain (nodes s) (flh s) (d_free d) term) /\
+    N.of_nat (length (d_free d)) = Format.lseq wbytes s - 1 - N.of_nat (length (dlive (d_tree d))) /\
+    (forall i, In i (d_free d) -> 1 <= i <= N.of_nat (length (nodes s))) /\
+    (forall i, In i (d_never d) <-> Format.lseq wbytes s <= i /\ 1 <= i <= N.of_nat (length (nodes s))) /\
+    (d_wf d = true ->
+       NoDup (dlive (d_tree d) ++ d_free d ++ d_never d) /\
+       (forall i, In i (dlive (d_tree d) ++ d_free d ++ d_never d) <-> 1 <= i <= N.of_nat (length (nodes s))) /\
+       (forall i, In i (dlive (d_tree d) ++ d_free d) <-> 1 <= i < Format.lseq wbytes s) /\
+       N.of_nat (length (dlive (d_tree d)) + length (d_free d)) + 1 = Format.lseq wbytes s /\
+       NoDup (dlive (d_tree d)) /\ NoDup (d_free d) /\
+       (forall i, In i (dlive (d_tree d)) -> ~ In i (d_free d)) /\
+       N.of_nat (length (dlive (d_tree d))) = size s /\
+       1 <= Format.lseq wbytes s <= cap s + 1 /\ cap s <= N.of_nat (length (nodes s)) /\
+       (forall i, In i (d_free d) ->
+          exists n, getn (nodes s) i = Ok n /\ nl n = 0 /\ nr n = 0 /\ nk n = 0%Z /\ nv n = 0%Z) /\
+       (forall i, In i (d_never d) -> getn (nodes s) i = Ok node0)) /\
+    (d_bst d = true -> Sorted.StronglySorted Z.lt (dkeys (d_tree d))) /\
+    (d_bal d = true ->
+       forall l i k v h r, dsub (DT l i k v h r) (d_tree d) ->
+         d_levels l <= d_levels r + 1 /\ d_levels r <= d_levels l + 1 /\
+         h + 1 = d_levels (DT l i k v h r)).
+Proof. exact avl_reader_sound. Qed.
+Print Assumptions C10_avl_reader_sound.
+
+(* the boolean duplicate check is the proposition *)
+Theorem C10_avl_reader_reflect : forall l : list N, nodupb l = true <-> NoDup l.
+Proof. exact nodupb_iff. Qed.
+Print Assumptions C10_avl_reader_reflect.
+
+(* the same in the vocabulary of the invariant: the tree of layer T with the
+   reader's shape is represented by the record array, and the two verdicts
+   are [bst], [avl] and [hok] of it *)
+Theorem C10_avl_reader_tree : forall wbytes lay bs d s,
+  decode_doc wbytes lay bs = Some d -> decode wbytes lay bs = Some s ->
+  rep (nodes s) (it_of (d_tree d)) /\ idx (it_of (d_tree d)) = root s /\
+  triples (it_of (d_tree d)) = d_inorder (d_tree d) /\
+  (d_bst d = true -> bst (it_of (d_tree d))) /\
+  (d_bal d = true -> avl (it_of (d_tree d)) /\ hok (it_of (d_tree d))).
+Proof. exact avl_reader_tree. Qed.
+Print Assumptions C10_avl_reader_tree.
+
+(* with the clauses the reader does not check added (the free chain ends at
+   the cursor while there is room; the capacity word leaves room for the
+   cursor in an index word), acceptance gives the master invariant *)
+Theorem C10_avl_reader_sound_inv : forall wbytes lay,
+  wbytes = 1%nat \/ wbytes = 4%nat ->
+  forall bs d s term,
+  decode_doc wbytes lay bs = Some d -> decode wbytes lay bs = Some s ->
+  d_wf d = true -> d_bst d = true -> d_bal d = true ->
+  fchain (nodes s) (flh s) (d_free d) term -> (Format.lseq wbytes s <= cap s -> term = seq s) ->
+  cap s < 2 ^ bits_of wbytes -> (bits_of wbytes <> 8 -> cap s + 1 < 2 ^ bits_of wbytes) ->
+  Inv (bits_of wbytes) s (it_of (d_tree d)) (d_free d) term.
+Proof. exact avl_reader_inv. Qed.
+Print Assumptions C10_avl_reader_sound_inv.
+
+(* every stored entry was an argument of an earlier operation *)
+Theorem C10_avl_kv_from_ops : forall capacity ops s t slot k v,
+  abs_of s t = Master.final_s (spec_init capacity) ops -> In (slot, k, v) (triples t) ->
+  In (OInsert k v) ops \/ (In (OGetMut k v) ops /\ exists v0, In (OInsert k v0) ops).
+Proof. exact kv_from_ops. Qed.
+Print Assumptions C10_avl_kv_from_ops.
+
+(* End to end, bytes and API answers only.  For a u8 or u32 tree, any key and
+   value types of positive size, any initial capacity an index word can hold,
+   and any history with admissible growth whose arguments fit the key and
+   value fields: every call returns normally and answers as the reference map
+   (the slot number of an insertion apart); the bytes of the final state
+   decode; the independent reader accepts them with all three verdicts and
+   reads, in key order, exactly the contents of the reference map; and the
+   buffer is data_len(number of records) bytes long. *)
+Theorem C10_avl_history_bytes_doc : forall wbytes lay,
+  wbytes = 1%nat \/ wbytes = 4%nat -> 0 < ksz lay -> 0 < vsz lay ->
+  forall capacity ops,
+  capacity < 2 ^ bits_of wbytes -> (bits_of wbytes <> 8 -> capacity + 1 < 2 ^ bits_of wbytes) ->
+  Master.growth_ok (bits_of wbytes) (spec_init capacity) ops -> ops_fit lay ops ->
+  exists s outs d,
+    final_c (bits_of wbytes) (init_c capacity capacity) ops = Ok s /\
+    run_c (bits_of wbytes) (init_c capacity capacity) ops = map Ok outs /\
+    map out_abs outs = run_s (spec_init capacity) ops /\
+    decode wbytes lay (encode wbytes lay s) = Some s /\
+    decode_doc wbytes lay (encode wbytes lay s) = Some d /\
+    d_wf d = true /\ d_bst d = true /\ d_bal d = true /\
+    map (fun x => (snd (fst x), snd x)) (d_inorder (d_tree d))
+      = sents (Master.final_s (spec_init capacity) ops) /\
+    N.of_nat (length (encode wbytes lay s))
+      = data_len wbytes lay (snrec (Master.final_s (spec_init capacity) ops)).
+Proof. exact history_bytes_doc. Qed.
+Print Assumptions C10_avl_history_bytes_doc.
+
+(* the hypotheses are satisfiable (the history of C10_avl_example, capacity
+   9), and on it the conclusion computes *)
+Example C10_avl_history_example :
+  (9 < 2 ^ bits_of 1 /\ Master.growth_ok (bits_of 1) (spec_init 9) ex_ops /\ ops_fit ex_lay8 ex_ops) /\
+  exists s d,
+    final_c 8 (init_c 9 9) ex_ops = Ok s /\
+    decode_doc 1 ex_lay8 (encode 1 ex_lay8 s) = Some d /\
+    d_wf d = true /\ d_bst d = true /\ d_bal d = true /\
+    map (fun x => (snd (fst x), snd x)) (d_inorder (d_tree d))
+      = [(10, 100); (30, 300); (40, 400); (45, 450); (50, 500); (60, 600); (70, 700)]%Z /\
+    sents (Master.final_s (spec_init 9) ex_ops)
+      = [(10, 100); (30, 300); (40, 400); (45, 450); (50, 500); (60, 600); (70, 700)]%Z.
+Proof.
+  split; [exact e2e_example_hyps|]. eexists. eexists.
+  split; [vm_compute; reflexivity|]. split; [vm_compute; reflexivity|].
+  repeat split; vm_compute; reflexivity.
+Qed.
+
+(* bytes the reader rejects: a free-list head pointing at a live slot
+   ([d_wf] false, as in C10_avl_reader_discriminates); a cyclic link (the
+   walk runs out of fuel: no answer); a record with two parents ([d_wf]
+   false); and bytes it accepts although they are no state of the invariant
+   (the unchecked clause) *)
+Example C10_avl_reader_rejects :
+  (exists d, decode_doc 1 ex_lay8 (encode 1 ex_lay8 (with_flh ex_state 1)) = Some d /\ d_wf d = false) /\
+  (decode 1 ex_lay8 (encode 1 ex_lay8 cyc_self) = Some cyc_self /\
+   decode_doc 1 ex_lay8 (encode 1 ex_lay8 cyc_self) = None /\
+   decode 1 ex_lay8 (encode 1 ex_lay8 cyc_two) = Some cyc_two /\
+   decode_doc 1 ex_lay8 (encode 1 ex_lay8 cyc_two) = None) /\
+  (exists d, decode_doc 1 ex_lay8 (encode 1 ex_lay8 shared_child) = Some d /\
+     dlive (d_tree d) = [2; 1; 2] /\ d_wf d = false) /\
+  ((exists d, decode_doc 1 ex_lay8 (encode 1 ex_lay8 avl_rs_bad) = Some d /\
+      d_wf d = true /\ d_bst d = true /\ d_bal d = true) /\
+   ~ inv 8 avl_rs_bad).
+Proof. exact (conj reject_live_and_free (conj reject_cycle (conj reject_shared avl_reader_not_inv))). Qed.
